@@ -260,3 +260,47 @@ u32 ir_vp_cv_pending(void){ return vp_cv_signal; }
 #ifdef NEED_ir_vp_in_join
 u32 ir_vp_in_join(void){ return vp_in_join; }
 #endif
+
+/* ---- enkiTS / pthread worker threads (C13, C01, C02): pthread_create records the thread; workers are stalled (never scheduled)
+   unless the harness switches them to "exit mode", in which a semaphore post lets every recorded worker run its start function once
+   (used for StopThreads, where the workers see m_bRunning == false and return) ---- */
+#define VP_MAXTHR 8
+typedef void *(*vp_thr_fn)(void *);
+struct vp_pthr { vp_thr_fn fn; void *arg; int done; };
+struct vp_pthr vp_pthr_tab[VP_MAXTHR]; u32 vp_pthr_n, vp_pthr_created, vp_pthr_cancelled; int vp_workers_mode, vp_in_worker;
+#ifdef NEED_ir_pthread_create
+u32 ir_pthread_create(void *tid, void *attr, void *fn, void *arg)
+{ __CPROVER_assert(vp_pthr_n < VP_MAXTHR, "BOUND:more than 8 worker threads"); vp_pthr_tab[vp_pthr_n].fn = (vp_thr_fn)fn; vp_pthr_tab[vp_pthr_n].arg = arg; vp_pthr_tab[vp_pthr_n].done = 0;
+  *(u64*)tid = 100 + vp_pthr_n; vp_pthr_n++; vp_pthr_created++; return 0; }
+#endif
+#ifdef NEED_ir_pthread_cancel
+u32 ir_pthread_cancel(u64 t){ vp_pthr_cancelled++; return 0; }
+#endif
+#ifdef NEED_ir_pthread_detach
+u32 ir_pthread_detach(u64 t){ return 0; }
+#endif
+#ifdef NEED_ir_sem_init
+u32 ir_sem_init(void *s, u32 sh, u32 v){ return 0; }
+#endif
+#ifdef NEED_ir_sem_destroy
+u32 ir_sem_destroy(void *s){ return 0; }
+#endif
+#ifdef NEED_ir_sem_wait
+u32 ir_sem_wait(void *s){ return 0; }
+#endif
+#ifdef NEED_ir_sem_post
+u32 ir_sem_post(void *s)
+{
+  if (vp_workers_mode == 1 && !vp_in_worker) { vp_in_worker = 1; for (u32 i = 0; i < vp_pthr_n; i++) if (!vp_pthr_tab[i].done) { vp_pthr_tab[i].done = 1; VP_CALL_WORKER(vp_pthr_tab[i].arg); } vp_in_worker = 0; }
+  return 0;
+}
+#endif
+#ifdef NEED_ir_sysconf
+u64 ir_sysconf(u32 name){ u32 n = nondet_u32(); __CPROVER_assume(n >= 1 && n <= 4); return n; }
+#endif
+#ifdef NEED_ir_vp_workers_mode
+void ir_vp_workers_mode(u32 m){ vp_workers_mode = (int)m; }
+#endif
+#ifdef NEED_ir_vp_threads_created
+u32 ir_vp_threads_created(void){ return vp_pthr_created; }
+#endif
